@@ -68,7 +68,7 @@ def execute(events, cfgd, conns, table, seed=0):
 
 def snapshot(drv):
     d = drv.read_disk()
-    return dict(e=ev0("DropAll"), out=[], err=ABSENT, tr=[], db=d["db"], udb=d["udb"], now=drv.now_ticks(),
+    return dict(e=ev0("DropAll"), out=[], err=ABSENT, tr=[], cands=[], db=d["db"], udb=d["udb"], now=drv.now_ticks(),
                 hid=dict(conn=drv.conn_flags(), nextSweep=drv.next_sweep, up=drv.up, rebooted=drv.rebooted,
                          gen=drv.tokens.gen))
 
@@ -207,8 +207,9 @@ def pair_iso(L, cfgd, conns, table, B, pid):
                 continue
             lines.append(dict(pid=pid, x=x + 1, li=i + 1, regime="iso", what="obs",
                               L=dict(out=canon_frames(o1["out"], cL, keep=_scope_conns(L, i, tag, B)), err=o1["err"],
+                                     cands=o1.get("cands", []),
                                      db=canon_db(o1["db"], cL, app=B), udb=canon_udb(o1["udb"], app=B)),
-                              R=dict(out=canon_frames(o2["out"], cR), err=o2["err"],
+                              R=dict(out=canon_frames(o2["out"], cR), err=o2["err"], cands=o2.get("cands", []),
                                      db=canon_db(o2["db"], cR, app=B), udb=canon_udb(o2["udb"], app=B))))
     finally:
         run.close()
@@ -239,9 +240,9 @@ def pair_config(L, cfgd, cfgd2, conns, table, pid):
                                   L=dict(v=o1 is not None), R=dict(v=o2 is not None)))
             continue
         lines.append(dict(pid=pid, x=x + 1, li=x + 1, regime="config", what="obs",
-                          L=dict(out=canon_frames(o1["out"], cL, strip_names=True), err=o1["err"],
+                          L=dict(out=canon_frames(o1["out"], cL, strip_names=True), err=o1["err"], cands=o1.get("cands", []),
                                  db=canon_db(o1["db"], cL), udb=canon_udb({"unp": [], "umb": [], "ucv": [], "cur": []})),
-                          R=dict(out=canon_frames(o2["out"], cR, strip_names=True), err=o2["err"],
+                          R=dict(out=canon_frames(o2["out"], cR, strip_names=True), err=o2["err"], cands=o2.get("cands", []),
                                  db=canon_db(o2["db"], cR), udb=canon_udb({"unp": [], "umb": [], "ucv": [], "cur": []}))))
     return lines, L
 
@@ -439,6 +440,9 @@ def check_pairs(lines, workdir, tag):
     of = os.path.join(workdir, tag + ".out.json")
     with open(tf, "w") as f:
         for ln in lines:
+            for side in ("L", "R"):
+                if "v" not in ln[side]:
+                    ln[side].setdefault("cands", [])
             f.write(json.dumps({k: ln[k] for k in ("pid", "x", "li", "regime", "what", "L", "R")}, separators=(",", ":")) + "\n")
     with open(os.path.join(workdir, "TP_%s.tla" % tag), "w") as f:
         f.write("---- MODULE TP_%s ----\nEXTENDS TracePair\n====\n" % tag)
@@ -461,15 +465,77 @@ def history(rng, profile, cfgd, conns, tid):
     table = {kind: dict(m) for kind, m in T.fwd.items()}
     drv = _mk(cfgd, conns, table)
     try:
-        obs = run_random(rng, drv, profile, tid)
+        if profile.get("scripted"):
+            from .gen import run_scripted
+            obs = run_scripted(rng, drv, profile, tid)
+        else:
+            obs = run_random(rng, drv, profile, tid)
+        if profile.get("probe_after_restart"):
+            obs += restart_and_probe(rng, drv, profile, tid, len(obs))
     finally:
         drv.close()
     return table, [(o["e"], o) for o in obs]
 
 
+def restart_and_probe(rng, drv, profile, tid, n0):
+    """Stop, start, and then let every side (and a newcomer) come back and try
+    what a returning client tries on whatever exists: claim, open, add, list,
+    release, close -- with sweeps when they are due."""
+    obs = []
+
+    def do(e):
+        g0 = drv.tokens.gen
+        o = drv.step(e)
+        backfill(e, o, g0, drv)
+        o["tid"], o["i"] = tid, n0 + len(obs) + 1
+        obs.append(o)
+        return o
+    if not drv.up:
+        do(ev0("Start"))
+    do(ev0("Stop"))
+    if rng.random() < 0.3:
+        do(ev0("Advance", d=rng.choice(profile.get("advance", [1, 5, 6]))))
+    do(ev0("Start"))
+    db = drv.read_channel()
+    names = sorted({r["name"] for r in db["np"]}) or list(profile["names"][:1])
+    boxes = sorted({r["id"] for r in db["mb"]}) or list(profile["client_mbox"][:1])
+    apps = sorted({r["app"] for r in db["mb"]} | {r["app"] for r in db["np"]}) or list(profile["apps"][:1])
+    sides = list(profile["sides"]) + ["s4"]
+    rng.shuffle(sides)
+    slots = list(drv.conn_names)
+    for k, side in enumerate(sides[:rng.choice([2, 3, 4])]):
+        c = slots[k % len(slots)]
+        now = drv.now_ticks()
+        if now >= drv.next_sweep:
+            do(ev0("Sweep"))
+        elif rng.random() < 0.3:
+            do(ev0("Advance", d=min(rng.choice([1, 4, 5]), drv.next_sweep - now)))
+        if drv.conn_flags()[c]["up"]:
+            do(ev0("Drop", c=c))
+        do(ev0("Connect", c=c))
+        do(ev0("Cmd", c=c, m=msg0(type="bind", appid=rng.choice(apps), side=side)))
+        for _ in range(rng.choice([1, 2, 3, 4])):
+            ty = rng.choice(["claim", "open", "open", "add", "list", "release", "close", "allocate"])
+            m = msg0(type=ty)
+            if ty == "claim":
+                m["nameplate"] = rng.choice(names)
+            elif ty == "open":
+                m["mailbox"] = rng.choice(boxes)
+            elif ty == "add":
+                m["phase"], m["body"] = rng.choice(["p1", "p2"]), rng.choice(["b1", "b2"])
+            elif ty == "release":
+                m["nameplate"] = rng.choice(names + [ABSENT])
+            elif ty == "close":
+                m["mailbox"] = rng.choice(boxes + [ABSENT])
+                m["mood"] = rng.choice(["happy", "lonely", ABSENT])
+            do(ev0("Cmd", c=c, m=m))
+    return obs
+
+
 REGIME_CFG = {
     "iso": dict(profile="apps", cfgs=[dict(allow=True, usage=True, blur=0), dict(allow=True, usage=False, blur=0)]),
-    "restart": dict(profile="mailbox", over=dict(w_stop=2.0, w_crash=0, w_advance=4, steps=45),
+    "restart": dict(profile="mailbox", alt_profile="script",
+                    over=dict(w_stop=2.0, w_crash=0, w_advance=4, steps=45, sides=["s1", "s2", "s3"]),
                     cfgs=[dict(allow=True, usage=True, blur=0), dict(allow=True, usage=False, blur=0)]),
     "resend": dict(profile="crowd", over=dict(conns=("c1", "c2", "c3"), names=["1", "x"]),
                    cfgs=[dict(allow=True, usage=False, blur=0), dict(allow=True, usage=True, blur=0)]),
@@ -487,8 +553,15 @@ def one_pair(regime, seedstr, pid):
     rc = REGIME_CFG[regime]
     rng = random.Random("pair/%s/%s" % (regime, seedstr))
     random.seed(rng.random())
-    prof = dict(plans.PROFILES[rc["profile"]])
+    pname = rc["profile"]
+    if rc.get("alt_profile") and rng.random() < 0.5:
+        pname = rc["alt_profile"]
+    prof = dict(plans.PROFILES[pname])
     prof.update(rc.get("over", {}))
+    if regime == "restart":
+        # a disturbed prefix, then the restart, then every side probes what exists
+        prof.update(w_stop=0, w_crash=0, final_quiesce=False, probe_after_restart=True,
+                    steps=rng.choice([12, 20, 30, 45]))
     conns = tuple(prof.get("conns", ("c1", "c2", "c3")))
     prof["conns"] = conns
     cfgd = dict(rng.choice(rc["cfgs"]))
